@@ -742,6 +742,41 @@ def r13_9(ctx):
             ge = lc.generators[0]
             if norm(ge.iter) == text_p and not ge.ifs and isinstance(lc.elt, ast.Tuple) and norm(lc.elt.elts[0]) == norm(ge.target) and isinstance(lc.elt.elts[1], ast.Call) and norm(expand_alias(lc.elt.elts[1].func, aliases)) == "get_character_cell_size":
                 chars = norm(n.targets[0])
+    # third accepted shape: pieces are consecutive SLICES of the text:  for off, ch in enumerate(text): ... on overflow
+    # lines.append(text[ls:off]); ls = off ...; after the loop lines.append(text[ls:]) - a partition of the text by construction
+    if chars is None:
+        for n in walk_local(f.node):
+            if isinstance(n, ast.For) and isinstance(n.iter, ast.Call) and norm(n.iter.func) == "enumerate" and len(n.iter.args) == 1 and norm(n.iter.args[0]) == text_p and isinstance(n.target, ast.Tuple) and len(n.target.elts) == 2 and not n.orelse:
+                off, ch3 = (norm(e) for e in n.target.elts)
+                szs = [b for b in n.body if isinstance(b, ast.Assign) and len(b.targets) == 1 and isinstance(b.targets[0], ast.Name) and isinstance(b.value, ast.Call) and norm(expand_alias(b.value.func, aliases)) == "get_character_cell_size" and len(b.value.args) == 1 and norm(b.value.args[0]) == ch3]
+                ifs3 = [b for b in n.body if isinstance(b, ast.If)]
+                if len(szs) != 1 or len(ifs3) != 1 or len(n.body) != 2:
+                    continue
+                sz3 = szs[0].targets[0].id
+                iff3 = ifs3[0]
+                t3 = iff3.test
+                okt = isinstance(t3, ast.Compare) and len(t3.ops) == 1 and isinstance(t3.ops[0], ast.Gt) and norm(t3.comparators[0]) == max_p and isinstance(t3.left, ast.BinOp) and isinstance(t3.left.op, ast.Add) and sz3 in (norm(t3.left.left), norm(t3.left.right))
+                ctx.check(okt, f.fq, f"if {norm(t3)}", f"{m.relpath}:{iff3.lineno}", "new piece exactly when running size + this character exceeds max_size",
+                          f"overflow test `{norm(t3)}` is not `running + {sz3} > {max_p}`: a piece can exceed the width, or characters that fit exactly are pushed to the next piece")
+                if not okt:
+                    return
+                tot3 = norm(t3.left.left) if norm(t3.left.right) == sz3 else norm(t3.left.right)
+                body_txt = [norm(b) for b in iff3.body]
+                starts = [b.targets[0].id for b in iff3.body if isinstance(b, ast.Assign) and len(b.targets) == 1 and isinstance(b.targets[0], ast.Name) and norm(b.value) == off]
+                ls = starts[0] if len(starts) == 1 else None
+                ok_true = ls is not None and sorted(body_txt) == sorted([f"lines.append({text_p}[{ls}:{off}])", f"{ls} = {off}", f"{tot3} = {sz3}"]) and body_txt.index(f"lines.append({text_p}[{ls}:{off}])") < body_txt.index(f"{ls} = {off}")
+                ok_false = [norm(b) for b in iff3.orelse] == [f"{tot3} += {sz3}"]
+                ctx.check(ok_true and ok_false, f.fq, "; ".join(body_txt), f"{m.relpath}:{iff3.lineno}", "on overflow the finished piece text[start:offset] is emitted, the next piece starts at this character and the running size restarts at its size; otherwise the size grows",
+                          "the slice bookkeeping of chop_cells is not `lines.append(text[start:offset]); start = offset; running = size` / `running += size`: characters are dropped, duplicated or pieces overflow")
+                inits = {norm(x.targets[0]): norm(x.value) for x in walk_local(f.node) if isinstance(x, ast.Assign) and len(x.targets) == 1 and x.lineno < n.lineno}
+                anns = {norm(x.target): norm(x.value) for x in walk_local(f.node) if isinstance(x, ast.AnnAssign) and x.value is not None and x.lineno < n.lineno}
+                inits.update(anns)
+                after = [x for x in f.node.body if getattr(x, "lineno", 0) > n.lineno]
+                ok_tail = len(after) == 2 and ls is not None and norm(after[0]) == f"lines.append({text_p}[{ls}:])" and norm(after[1]) == "return lines"
+                ctx.check(ls is not None and inits.get(ls) == "0" and inits.get("lines") == "[]" and inits.get(tot3) == pos_p and ok_tail, f.fq, "start = 0 ... lines.append(text[start:]); return lines", f.where,
+                          "pieces start at offset 0, the last piece runs to the end of the text, the running size starts at the given position: the pieces are a partition of the text, in order",
+                          "chop_cells (slice form) does not start at offset 0 / does not emit the final piece text[start:] / does not start the running size at `position`")
+                return
     # second accepted shape: plain forward iteration `for ch in text:` with `size = get_character_cell_size(ch)` in the body
     fwd = None
     if chars is None:
